@@ -27,6 +27,15 @@ objs=[(f*n, np.array([[0.25,0.5],[0.75,0.125]]))]'''),
     corpus._c("c04_interval_p3", '''
 m=mesh("interval"); V=space(m,"P",3); f=Coefficient(V); u=TrialFunction(V)
 objs=[(f.dx(0)*f, np.array([[0.125],[0.5],[0.875]])), (u.dx(0), np.array([[0.25],[0.75]]))]'''),
+    corpus._c("c04_coefficient_eliminated_first", '''
+m=mesh("triangle"); D=space(m,"DP",0); V=space(m,"P",2); k=Coefficient(D); g=Coefficient(V); h=Coefficient(V)
+objs=[(g + (k+h).dx(0), np.array([[0.25,0.25],[0.5,0.125]])), (as_vector([g*h, grad(k+g)[1]*h]), np.array([[0.125,0.5]]))]'''),
+    corpus._c("c04_coefficient_eliminated_middle", '''
+m=mesh("triangle"); D=space(m,"DP",0); V=space(m,"P",2); g=Coefficient(V); k=Coefficient(D); h=Coefficient(V); c=Constant(m)
+objs=[(grad(k+g)[1]*h + c*g, np.array([[0.25,0.25],[0.5,0.125],[0.125,0.625]]))]'''),
+    corpus._c("c04_three_coefficients_all_kept", '''
+m=mesh("tetrahedron"); D=space(m,"DP",0); V=space(m,"P",1); k=Coefficient(D); g=Coefficient(V); h=Coefficient(space(m,"P",2))
+objs=[(k*g + g*h, np.array([[0.25,0.25,0.125]])), (k*grad(h), np.array([[0.125,0.25,0.5]]))]'''),
     corpus._c("c04_mixed_coefficient", '''
 m=mesh("triangle"); E=basix.ufl.mixed_element([el("P","triangle",2,shape=(2,)), el("P","triangle",1)])
 W=FunctionSpace(m,E); w=Coefficient(W); (uu,pp)=split(w); k=Constant(m)
@@ -59,8 +68,11 @@ def run(v, tier, seed, g):
                 problems.append(f"value_shape {d['value_shape']} vs {list(expr.ufl_shape)}")
             if d["rank"] != len(ufl.algorithms.extract_arguments(expr)):
                 problems.append(f"rank {d['rank']}")
-            if d["num_coefficients"] != len(coeffs) or d["original_coefficient_positions"] != list(range(len(coeffs))):
-                problems.append(f"coefficients {d['num_coefficients']} {d['original_coefficient_positions']} vs {len(coeffs)}")
+            # coefficients that survive differentiation (UFL's own expand_derivatives), at their positions in the expression as written
+            kept = ufl.algorithms.extract_coefficients(ufl.algorithms.expand_derivatives(expr))
+            want_pos = [coeffs.index(c) for c in kept]
+            if d["num_coefficients"] != len(kept) or d["original_coefficient_positions"] != want_pos:
+                problems.append(f"coefficients {d['num_coefficients']} {d['original_coefficient_positions']} vs {len(kept)} {want_pos}")
             if d["num_constants"] != len(ufl.algorithms.analysis.extract_constants(expr)):
                 problems.append(f"constants {d['num_constants']}")
             v.oblige(not problems)
